@@ -1,9 +1,13 @@
 #!/bin/sh
-# Regenerate go.mod / go.sum of the harness from /repo's current go.mod so that the
+# Regenerate the harness's go.mod / go.sum from $VERIF_REPO's current go.mod so that the
 # harness always resolves exactly the dependency versions the repository pins.
+# Output goes to $VERIF_MODFILE (default: harness/go.mod); its go.sum sits beside it.
 set -e
 cd "$(dirname "$0")"
 REPO=${VERIF_REPO:-/repo}
+OUT=${VERIF_MODFILE:-$PWD/go.mod}
+SUM="${OUT%.mod}.sum"
+TMP="$OUT.new.$$"
 {
   echo "module verifharness"
   echo
@@ -11,6 +15,17 @@ REPO=${VERIF_REPO:-/repo}
   echo
   echo "require github.com/sunriselayer/sunrise v0.0.0"
   echo "replace github.com/sunriselayer/sunrise => $REPO"
-} > go.mod.new
-if ! cmp -s go.mod.new go.mod; then mv go.mod.new go.mod; else rm go.mod.new; fi
-if ! cmp -s "$REPO/go.sum" go.sum; then cp "$REPO/go.sum" go.sum; fi
+  if [ -f "$REPO/x/da/erasurecoding/go.mod" ]; then
+    echo "require github.com/sunriselayer/sunrise/x/da/erasurecoding v0.0.0"
+    echo "replace github.com/sunriselayer/sunrise/x/da/erasurecoding => $REPO/x/da/erasurecoding"
+  fi
+} > "$TMP"
+if ! cmp -s "$TMP" "$OUT"; then mv "$TMP" "$OUT"; else rm "$TMP"; fi
+if [ -f "$REPO/x/da/erasurecoding/go.sum" ]; then
+  cat "$REPO/go.sum" "$REPO/x/da/erasurecoding/go.sum" | sort -u > "$SUM.new.$$"
+else
+  cp "$REPO/go.sum" "$SUM.new.$$"
+fi
+if ! cmp -s "$SUM.new.$$" "$SUM"; then mv "$SUM.new.$$" "$SUM"; else rm "$SUM.new.$$"; fi
+# a go.mod must exist in the module root even when -modfile is used
+[ -f go.mod ] || cp "$OUT" go.mod
